@@ -18,6 +18,8 @@ var HostileStrings = []string{"", "a", "a b", "\"", "\\", "\"\"\"", "\\\"\"\"", 
 	"\n", "\nlead", "trail\n", "  a\n    b\n  c", "a\n  b", " a\n b", "\n\n", " ", "é", "😀", "\u007f", "\u0000", "\u0001", "\u0007", "\u001f", "\u00AD", "\u200B", "\u2028", "\u2029", "\uFEFF",
 	"\U000E0001", "\uE000", "\U0010FFFF", "a\rb", "a\r\nb", "#notcomment", "$var", "{}", "[1,2]", "\\u0041", "\\", "\"\"", "\"\"\"\"", "x\"\"\"", "\"\"\"x", "'", "/", "\b\f",
 	"on", "query", "null", "true",
+	// first or last line consisting of white space only (a block string would drop it)
+	"a\n  ", "  \na", "a\n\t", " \n a\n ", "\t\nb\n\n \t",
 	// pairs of adjacent runes each of which needs an escape (a decoder that fuses escapes sees them together)
 	"\uFEFF\uFFFE", "\uE000\uE001", "\uFFFF\uFFFF", "\u0001\u0002", "\u2028\u2029", "\uFEFF\uFEFF", "\u007f\u0080", "\uF8FF\uE0FF"}
 
